@@ -186,6 +186,12 @@ class Extractor:
         if isinstance(st, ast.Assign):
             if len(st.targets) == 1 and isinstance(st.targets[0], ast.Subscript):
                 t0 = st.targets[0]
+                if isinstance(t0.value, ast.Name) and isinstance(self.env.get(t0.value.id), dict):
+                    key = self.expr(t0.slice)
+                    if not isinstance(key, str):
+                        self.err("dictionary item store with a non-string key", st)
+                    self.env[t0.value.id][key] = self.expr(st.value)
+                    return
                 if isinstance(t0.value, ast.Name) and isinstance(self.env.get(t0.value.id), Slots):
                     sl_ = self.env[t0.value.id]
                     i = self.expr(t0.slice) if not isinstance(t0.slice, (ast.Tuple, ast.Slice)) else None
@@ -252,7 +258,8 @@ class Extractor:
             return
         if isinstance(st, ast.Return):
             rv = self.expr(st.value) if st.value is not None else None
-            self.check_early_returns(rv, st)
+            if not getattr(self, "_in_local_helper", 0):
+                self.check_early_returns(rv, st)
             self.returns.append((st, rv))
             raise _Returned()
         if isinstance(st, ast.If):
@@ -304,6 +311,45 @@ class Extractor:
                 return
             self.err("branch inside a recursion kernel", st)
         if isinstance(st, (ast.Pass, ast.Raise)):
+            return
+        if isinstance(st, ast.FunctionDef) and not st.decorator_list:
+            # a local helper (closure over the locals of this call): interpreted in place at each call
+            fdef = st
+
+            def closure(ex, call, fdef=fdef):
+                a_ = fdef.args
+                if a_.vararg or a_.kwarg or a_.kwonlyargs or a_.posonlyargs:
+                    ex.err("local helper with */** parameters", call)
+                params = [x.arg for x in a_.args]
+                vals = [ex.expr(x) for x in call.args]
+                bound = dict(zip(params, vals))
+                for k in call.keywords:
+                    if k.arg is None:
+                        ex.err("**kwargs in a call of a local helper", call)
+                    bound[k.arg] = ex.expr(k.value)
+                defaults = dict(zip(params[len(params) - len(a_.defaults):], a_.defaults))
+                for p_ in params:
+                    if p_ not in bound:
+                        if p_ not in defaults:
+                            ex.err(f"local helper {fdef.name} called without `{p_}`", call)
+                        bound[p_] = ex.expr(defaults[p_])
+                saved_env, saved_ret = ex.env, ex.returns
+                ex._in_local_helper = getattr(ex, "_in_local_helper", 0) + 1
+                ex.env = dict(saved_env)
+                ex.env.update(bound)
+                ex.returns = []
+                try:
+                    try:
+                        for s2 in fdef.body:
+                            ex.stmt(s2)
+                    except _Returned:
+                        pass
+                    rv = ex.returns[-1][1] if ex.returns else None
+                finally:
+                    ex.env, ex.returns = saved_env, saved_ret
+                    ex._in_local_helper -= 1
+                return rv
+            self.env[st.name] = closure
             return
         self.err(f"statement {type(st).__name__}", st)
 
@@ -689,6 +735,20 @@ class Extractor:
 
     def store(self, st):
         t = st.targets[0]
+        if isinstance(t.value, ast.Name) and t.value.id not in self.tables and self.view_target(t.value) is not None:
+            # `view[...] = value` / `view[:] = value` with `view = T[idx]`: a store into T at idx
+            sl = t.slice
+            elts = sl.elts if isinstance(sl, ast.Tuple) else [sl]
+            whole = all((isinstance(z, ast.Constant) and z.value is Ellipsis) or
+                        (isinstance(z, ast.Slice) and z.lower is None and z.upper is None and z.step is None) for z in elts)
+            if not whole:
+                self.err(f"partial store through the view `{t.value.id}` of a recursion table", st)
+            syn = ast.Assign(targets=[self.view_target(t.value)], value=st.value)
+            ast.copy_location(syn, st)
+            ast.fix_missing_locations(syn)
+            self.synthetic = getattr(self, "synthetic", {})
+            self.synthetic[id(syn)] = st
+            return self.store(syn)
         if not (isinstance(t.value, ast.Name) and t.value.id in self.tables):
             # store into something that is not a recursion table (e.g. masked store): opaque
             self.err(f"store into `{ast.unparse(t.value)}` which is not a recursion table", st)
@@ -768,6 +828,11 @@ class Extractor:
             return tuple(self.expr(x) for x in e.elts)
         if isinstance(e, ast.List):
             return [self.expr(x) for x in e.elts]
+        if isinstance(e, ast.Dict) and all(k is not None for k in e.keys):
+            keys = [self.expr(k) for k in e.keys]
+            if not all(isinstance(k, str) for k in keys):
+                self.err("dictionary with non-string keys", e)
+            return dict(zip(keys, [self.expr(v) for v in e.values]))
         if isinstance(e, (ast.ListComp, ast.GeneratorExp)) and len(e.generators) == 1 and not e.generators[0].ifs:
             # comprehension over a literal / constant iterable: unrolled
             g = e.generators[0]
@@ -866,6 +931,8 @@ class Extractor:
     def binop(self, op, l, r, node):
         if isinstance(l, tuple) and isinstance(r, tuple) and isinstance(op, ast.Add):
             return l + r
+        if isinstance(l, str) and isinstance(r, str) and isinstance(op, ast.Add):
+            return l + r
         if isinstance(l, list) and isinstance(r, list) and isinstance(op, ast.Add):
             return l + r
         if isinstance(op, ast.Mult):
@@ -945,7 +1012,24 @@ class Extractor:
     def materialise_slice(self, sl):
         """An index computed at run time (`recursed + (b,) + rest`, `slice(None, -1)`) as the equivalent literal subscript: slices and
         None become syntax, every other entry a temporary name bound to the computed value."""
-        if isinstance(sl, (ast.Tuple, ast.Slice, ast.Constant)):
+        if isinstance(sl, ast.Tuple):
+            # an entry that is a name bound to a slice object (`upper = slice(1, None)`; `T[0, j, upper]`) becomes that slice
+            changed = False
+            elts = []
+            for x in sl.elts:
+                if isinstance(x, ast.Name) and isinstance(self.env.get(x.id), slice):
+                    y = self.materialise_slice(x)
+                    changed = changed or (y is not x)
+                    elts.append(y)
+                else:
+                    elts.append(x)
+            if changed:
+                node = ast.Tuple(elts=elts, ctx=ast.Load())
+                ast.copy_location(node, sl)
+                ast.fix_missing_locations(node)
+                return node
+            return sl
+        if isinstance(sl, (ast.Slice, ast.Constant)):
             return sl
         if not isinstance(sl, (ast.Name, ast.BinOp, ast.Call)):
             return sl
@@ -1337,7 +1421,14 @@ class Extractor:
             env[nm] = v
         for k in e.keywords:
             if k.arg is None:
-                self.err("**kwargs in a kernel call", e)
+                kv = self.expr(k.value)
+                if not (isinstance(kv, dict) and all(isinstance(x, str) for x in kv)):
+                    self.err("**kwargs in a kernel call that is not a dictionary built in this function", e)
+                unknown = [x for x in kv if x not in params]
+                if unknown:
+                    self.err(f"keyword(s) {unknown} are not parameters of {g.name}", e)
+                env.update(kv)
+                continue
             env[k.arg] = self.expr(k.value)
         missing = [p for p in params if p not in env]
         if missing:
@@ -1348,7 +1439,14 @@ class Extractor:
             defaults.update({x.arg: d_ for x, d_ in zip(a_.kwonlyargs, a_.kw_defaults) if d_ is not None})
             for p_ in list(missing):
                 d_ = defaults.get(p_)
-                if isinstance(d_, ast.Constant) and (d_.value is None or isinstance(d_.value, (bool, int, float))):
+                lit = isinstance(d_, ast.Constant) and (d_.value is None or isinstance(d_.value, (bool, int, float, str)))
+                if not lit and isinstance(d_, (ast.Tuple, ast.List)):
+                    try:
+                        ast.literal_eval(d_)
+                        lit = True
+                    except Exception:
+                        lit = False
+                if lit:
                     env[p_] = self.expr(d_)
                     missing.remove(p_)
         if missing:
